@@ -5,6 +5,7 @@
 mod field;
 mod group;
 mod hash;
+mod lms;
 mod out;
 mod rng;
 mod sig;
@@ -66,6 +67,7 @@ fn main() {
         "xdh" => sig::run_xdh(&mut tr, &mut rng, num("n", 40)),
         "eddsa" => sig::run_eddsa(&mut tr, &mut rng, &get("curve", "ed25519"), num("honest", 12), num("adv", 24)),
         "ecdsa" => sig::run_ecdsa(&mut tr, &mut rng, &get("curve", "p256"), num("honest", 12), num("adv", 12)),
+        "lms" => lms::run(&mut tr, &mut rng, &get("script", ""), num("deep", 0)),
         "hash" => hash::run(&mut tr, &mut rng, &get("script", "")),
         _ => {
             eprintln!("unknown domain {}", domain);
